@@ -47,8 +47,9 @@ ASSUMPTIONS = [
     'one-point probe of the library (sign bit only)',
     'fit tolerances: scipy.optimize.least_squares with a 2-point finite-difference Jacobian and ftol=xtol=gtol=1e-8 is '
     'the documented mechanism, so recovery is demanded to 1e-6 of max|coeff| (observed worst 3e-9; swapping two terms '
-    'or dropping one changes a coefficient by O(1) of max|coeff|) and linearity in the data to 1e-4 of the data '
-    'magnitude (observed worst 5e-7 with non-representable data, where the solver stops on ftol)',
+    'or dropping one changes a coefficient by O(1) of max|coeff|) and linearity in the data to 1e-3 of the data '
+    'magnitude (observed worst 3e-6 with non-representable large-scale data, where the solver stops on ftol: it may '
+    'leave |A dc| up to sqrt(ftol)=1e-4 of the residual norm)',
     'known mechanism "absolute-gtol": least_squares stops at the all-zero initial guess when ||A^T z||_inf < 1e-8 '
     '(scipy default gtol, absolute), so data of magnitude <~1e-10 are fitted by all-zero coefficients; cases whose '
     'oracle gradient norm is below 3e-8 carry that flag and the all-zero prediction as the as-built model',
@@ -85,9 +86,13 @@ TOL_EDGE = 1e-10        # R(1): the factorial sum at r=1 is a sum of exactly rep
 TOL_GRAM = 1e-8         # quadrature is exact; roundoff measured ~1e-11; a wrong constant changes the diagonal by O(0.1..1)
 TOL_LIN = 1e-12         # poly is a plain sum: roundoff eps * sum|c||Z|
 TOL_FIT = 1e-6          # of max|coeff| (see ASSUMPTIONS)
-TOL_FITLIN = 1e-4       # of the data magnitude: with non-representable data least_squares stops on ftol after the
-#                         first Gauss-Newton step whose finite-difference Jacobian is good to ~1e-8 (observed worst 5e-7; a robust loss, clipping or data normalisation is an O(1e-2..1) effect)
-TOL_OPD = 1e-7          # RMS residual excess over the lstsq optimum, relative to max|OPD|
+TOL_FITLIN = 1e-3       # of the data magnitude D.  With non-representable data (residual r != 0) the documented solver may
+#                         stop as soon as the cost gain is < ftol*cost, i.e. with |A dc| up to sqrt(ftol)|r| = 1e-4 |r|,
+#                         and its first steps use a finite-difference Jacobian whose error grows with |z| (eps|z|/1.5e-8);
+#                         observed worst 3e-6 D (large-scale noisy data, Fringe).  A robust loss, clipping, or a
+#                         data-dependent normalisation is an O(1e-1..1) effect on such data.
+TOL_OPD = 1e-7          # RMS residual excess over the lstsq optimum, relative to max|OPD|: by the ftol rule the excess is
+#                         <= 0.5e-8 of the optimum residual; observed worst 5e-11; a dropped/misplaced term costs >= ~1e-4
 GTOL_ABS = 1e-8         # scipy default gtol (absolute): the known mechanism behind the tiny-scale class
 
 
@@ -418,6 +423,17 @@ def asbuilt_fit(A, z):
     return pred, g0, g0 < 3 * GTOL_ABS
 
 
+def close_mech(rec, clause, got, want, tol, scale, flagged, pred, msg, detail):
+    """rec.close with the as-built alternative; a flagged case that nevertheless meets `want` is counted as a passing
+    evaluation without entering the worst-residual statistic (its residual is the mechanism's, not the solver's)."""
+    if flagged:
+        r, same = rec.resid(got, want, scale)
+        if same and r <= tol:
+            return rec.check(clause, True)
+        return rec.close(clause, got, want, tol, scale=scale, alt=pred, flags=('absolute-gtol',), msg=msg, detail=detail)
+    return rec.close(clause, got, want, tol, scale=scale, msg=msg, detail=detail)
+
+
 def _fit(fam, x, y, z, N):
     from optiland.zernike import ZernikeFit
     f = ZernikeFit(np.array(x), np.array(y), np.array(z), fam, N)
@@ -449,11 +465,10 @@ def check_fit(case, rec):
     pred, g0, flagged = asbuilt_fit(A, z)
     if flagged:
         rec.cls('mech-absolute-gtol')
-    rec.close('fit-recovery', got, c, TOL_FIT, scale=float(np.max(np.abs(c))),
-              alt=(pred if flagged else None), flags=(('absolute-gtol',) if flagged else ()),
-              msg=f'{fam}: fit of an exact combination of the first {N} terms at {x.size} {case["layout"]} points '
-                  f'(cond {cond:.1f}, max|coeff| {np.max(np.abs(c)):.3g}) does not return the coefficients',
-              detail=dict(cond=cond, g0=g0))
+    close_mech(rec, 'fit-recovery', got, c, TOL_FIT, float(np.max(np.abs(c))), flagged, pred,
+               f'{fam}: fit of an exact combination of the first {N} terms at {x.size} {case["layout"]} points '
+               f'(cond {cond:.1f}, max|coeff| {np.max(np.abs(c)):.3g}) does not return the coefficients',
+               dict(cond=cond, g0=g0))
     rec.sample(dict(case=case, coeffs_in=c, coeffs_fit=got, cond=cond))
 
 
@@ -495,10 +510,10 @@ def check_fitlin(case, rec):
     g0 = [g1, g2, g3]
     if flagged:
         rec.cls('mech-absolute-gtol')
-    rec.close('fit-linear', c3 - (a * c1 + b * c2), np.zeros(N), TOL_FITLIN, scale=D,
-              alt=(p3 - (a * p1 + b * p2) if flagged else None), flags=(('absolute-gtol',) if flagged else ()),
-              msg=f'{fam}: coeffs(a*z1+b*z2) != a*coeffs(z1)+b*coeffs(z2) (N={N}, {x.size} points, '
-                  f'data magnitude {D:.3g})', detail=dict(cond=cond, g0=g0, a=a, b=b))
+    close_mech(rec, 'fit-linear', c3 - (a * c1 + b * c2), np.zeros(N), TOL_FITLIN, D, flagged,
+               p3 - (a * p1 + b * p2),
+               f'{fam}: coeffs(a*z1+b*z2) != a*coeffs(z1)+b*coeffs(z2) (N={N}, {x.size} points, '
+               f'data magnitude {D:.3g})', dict(cond=cond, g0=g0, a=a, b=b))
 
 
 _LENS_SKIP = {}
